@@ -1,14 +1,13 @@
 // U17 (Kani, BOUNDED): the real crate locustdb-serialization (path dependency, unmodified):
 // event_buffer::ColumnBuffer::push - the client-side row API that builds dense / sparse column representations.
-// Bound: 3 rows per column; every value is NULL, any i64 or any f64.
+// Bound: five fixed row shapes of 3-5 rows (one per representation transition); every value is any i64 / any f64.
 #![allow(dead_code, unused_imports)]
 #[cfg(kani)]
 mod proofs {
     use locustdb_serialization::api::AnyVal;
     use locustdb_serialization::event_buffer::{ColumnBuffer, ColumnData};
 
-    const ROWS: usize = 3;
-
+    
     #[derive(Clone, Copy, PartialEq)]
     enum Cell { Null, I(i64), F(u64) }
 
@@ -24,31 +23,28 @@ mod proofs {
         }
     }
 
-    #[kani::proof]
-    #[kani::unwind(6)]
-    fn push_rows() {
+    // fixed row shapes (which rows receive NULL / an int / a float), all values symbolic: one harness per representation
+    // transition of ColumnBuffer::push (dense -> sparse, int -> float promotion of dense and of sparse columns, late start)
+    #[derive(Clone, Copy)]
+    enum K { N, I, F }
+    fn run_shape<const R: usize>(shape: [K; R]) {
         let mut col = ColumnBuffer::default();
-        let mut model = [Cell::Null; ROWS];
+        let mut model = [Cell::Null; R];
         let mut any_float = false;
-        for row in 0..ROWS {
-            let k: u8 = kani::any();
-            kani::assume(k < 3);
-            match k {
-                0 => { col.push(AnyVal::Null, row as u64); }
-                1 => { let v: i64 = kani::any(); col.push(AnyVal::Int(v), row as u64); model[row] = Cell::I(v); }
-                _ => { let f: f64 = kani::any(); col.push(AnyVal::Float(f), row as u64); model[row] = Cell::F(f.to_bits()); any_float = true; }
+        for row in 0..R {
+            match shape[row] {
+                K::N => { col.push(AnyVal::Null, row as u64); }
+                K::I => { let v: i64 = kani::any(); col.push(AnyVal::Int(v), row as u64); model[row] = Cell::I(v); }
+                K::F => { let f: f64 = kani::any(); col.push(AnyVal::Float(f), row as u64); model[row] = Cell::F(f.to_bits()); any_float = true; }
             }
         }
-        kani::cover!(matches!(col.data, ColumnData::SparseI64(_)), "vacuity: sparse int representation reachable");
-        kani::cover!(matches!(col.data, ColumnData::Sparse(_)), "vacuity: sparse float representation reachable");
-        for row in 0..ROWS {
+        for row in 0..R {
             let got = den(&col.data, row);
             match model[row] {
                 Cell::Null => assert!(got == Cell::Null, "[null-where-missing] a row that received no value denotes NULL"),
                 Cell::F(b) => assert!(got == Cell::F(b), "[float-kept] float value kept bit-exactly at its row"),
                 Cell::I(v) => {
                     if any_float {
-                        // documented degrade: int + float gives float
                         assert!(got == Cell::F((v as f64).to_bits()), "[int-promoted-in-place] integer promoted to float stays at its row");
                     } else {
                         assert!(got == Cell::I(v), "[int-kept] integer value kept at its row");
@@ -57,6 +53,21 @@ mod proofs {
             }
         }
     }
+    #[kani::proof]
+    #[kani::unwind(6)]
+    fn dense_ints_then_gap() { run_shape([K::I, K::I, K::N, K::I]); }          // I64 -> SparseI64
+    #[kani::proof]
+    #[kani::unwind(6)]
+    fn dense_floats_then_gap() { run_shape([K::F, K::N, K::F]); }              // Dense -> Sparse
+    #[kani::proof]
+    #[kani::unwind(6)]
+    fn dense_ints_then_float() { run_shape([K::I, K::I, K::F]); }              // I64 -> Dense
+    #[kani::proof]
+    #[kani::unwind(6)]
+    fn sparse_ints_then_float() { run_shape([K::N, K::I, K::N, K::I, K::F]); } // SparseI64 -> Sparse (row indices must survive)
+    #[kani::proof]
+    #[kani::unwind(6)]
+    fn late_start_float_then_int() { run_shape([K::N, K::N, K::F, K::I]); }    // Sparse, int pushed into float column
 
     #[kani::proof]
     fn vx_canary() {
